@@ -113,6 +113,18 @@ void sk_text(sk_result* r, const char* fmt, ...)
 {
 	va_list ap;
 	int n;
+	if (r->want_text == 2)
+	{
+		/* live mode (--one --text): print at once so that the plan is visible
+		   even if the run crashes */
+		fputs("T ", stdout);
+		va_start(ap, fmt);
+		vprintf(fmt, ap);
+		va_end(ap);
+		fputc('\n', stdout);
+		fflush(stdout);
+		return;
+	}
 	if (!r->want_text || r->textlen + 2 >= SK_MAXTEXT)
 		return;
 	va_start(ap, fmt);
@@ -323,7 +335,7 @@ int sk_main(int argc, char** argv)
 			mask = parse_keep(keep);
 		memset(&res, 0, sizeof(res));
 		res.digest = SK_DG_INIT;
-		res.want_text = want_text;
+		res.want_text = want_text ? 2 : 0;
 		sk_the_engine.run(one, mask, &res);
 		if (want_text)
 		{
